@@ -2,9 +2,55 @@
   Line protocol: one request per line, one answer per line.
 -/
 import Bp7.Driver.Text
+import Bp7.Driver.Notation
 import Bp7.Model.Hex
+import Bp7.Model.Admin
+import Bp7.Model.Time
+import Bp7.Spec.Rfc9171
 namespace Bp7.Driver
 open Bp7
+
+def showUpd (o : UpdOut) : String := showBool o.ret ++ " " ++ showBundle o.bundle
+
+def showResOptBytes (r : Res (Option Bytes)) : String :=
+  match r with
+  | .ok o => showOptBytes o
+  | .err _ => "err"
+  | .panic _ => "panic"
+
+/-- all accessors of an endpoint ID on one line -/
+def eidAcc (e : Eid) : String :=
+  "node=" ++ showResOptBytes e.node ++ " nodeid=" ++ showResOptBytes e.nodeId
+  ++ " svc=" ++ showOptBytes e.serviceName ++ " isnode=" ++ showBool e.isNodeId
+  ++ " valid=" ++ showBool (eidOk e) ++ " str=" ++ hexOfBytes (printEid e)
+
+/-- C11 operation sequences: `seq <bundle> ; op ; op ...` -/
+def applyOp (b : Bundle) : List String → Option Bundle
+  | ["add", t, nm, fl, crc, d] => do
+    let c : Canon := { btype := ← t.toNat?, num := ← nm.toNat?, flags := ← fl.toNat?, crc := ← parseCrc crc, data := ← parseData d }
+    some (b.addBlock c)
+  | ["setpayload", h] => do some (b.setPayload (← bytesOfHex h))
+  | ["setpayloadblock", fl, h] => do some (b.setPayloadBlock (newPayloadBlock (← fl.toNat?) (← bytesOfHex h)))
+  | ["setcrc", t] => do some (b.setCrc (← t.toNat?))
+  | ["upd", node, rt, now] => do
+    some (b.updateExtensions (← parseEidTok node) (← rt.toNat?) (← now.toNat?)).bundle
+  | _ => none
+
+def splitOps (ts : List String) : List (List String) :=
+  let rec go (ts : List String) (cur : List String) (acc : List (List String)) : List (List String) :=
+    match ts with
+    | [] => (if cur.isEmpty then acc else acc ++ [cur])
+    | ";" :: rest => go rest [] (if cur.isEmpty then acc else acc ++ [cur])
+    | t :: rest => go rest (cur ++ [t]) acc
+  go ts [] []
+
+def stateLine (b : Bundle) : String :=
+  let rt := match decodeBundle (b.toCbor).2 with
+    | .ok d => showBool (d == (b.toCbor).1)
+    | .err _ => "err"
+    | .panic _ => "panic"
+  showBundle b ++ " | payload=" ++ showOptBytes b.payload
+  ++ " valid=" ++ String.intercalate "," (b.validate.map showVErr) ++ " rt=" ++ rt
 
 def answer (line : String) : String :=
   match line.splitOn " " with
@@ -19,6 +65,126 @@ def answer (line : String) : String :=
   | ["hex.dec.pinned", h] =>
     match bytesOfHex h with
     | some s => resStr hexOfBytes (unhexifyPinned s)
+    | none => "bad-op"
+  | ["crc16", h] =>
+    match bytesOfHex h with
+    | some s => "ok " ++ toString (crc16 s).toNat ++ " " ++ toString (Spec.crc16 s)
+    | none => "bad-op"
+  | ["crc32", h] =>
+    match bytesOfHex h with
+    | some s => "ok " ++ toString (crc32c s).toNat ++ " " ++ toString (Spec.crc32c s)
+    | none => "bad-op"
+  | ["dec", h] =>
+    match bytesOfHex h with
+    | some s => resStr showBundle (decodeBundle s)
+    | none => "bad-op"
+  | ["eid.parse", h] =>
+    match bytesOfHex h with
+    | some s => resStr showEid (parseEid s)
+    | none => "bad-op"
+  | ["eid.withdtn", h] =>
+    match bytesOfHex h with
+    | some s => resStr showEid (withDtn s)
+    | none => "bad-op"
+  | ["eid.withipn", n, s] =>
+    match n.toNat?, s.toNat? with
+    | some n, some s => resStr showEid (withIpn n s)
+    | _, _ => "bad-op"
+  | ["eid.acc", e] =>
+    match parseEidTok e with
+    | some e => "ok " ++ eidAcc e
+    | none => "bad-op"
+  | ["eid.cbor", e] =>
+    match parseEidTok e with
+    | some e => "ok " ++ hexOfBytes (encEid e) ++ " " ++ resStr showEid (fromSlice readEid (encEid e))
+    | none => "bad-op"
+  | ["eid.dec", h] =>
+    match bytesOfHex h with
+    | some s => resStr showEid (fromSlice readEid s)
+    | none => "bad-op"
+  | ["eid.newep", e, h] =>
+    match parseEidTok e, bytesOfHex h with
+    | some e, some s => resStr showEid (e.newEndpoint s)
+    | _, _ => "bad-op"
+  | ["time.unix", t] =>
+    match t.toNat? with
+    | some t => "ok " ++ toString (dtnUnix t)
+    | none => "bad-op"
+  | ["time.string", t] =>
+    match t.toNat? with
+    | some t => "ok " ++ hexOfBytes (dtnString t)
+    | none => "bad-op"
+  | ["ts.string", t, s] =>
+    match t.toNat?, s.toNat? with
+    | some t, some s => "ok " ++ hexOfBytes (tsString t s)
+    | _, _ => "bad-op"
+  | ["time.now", c] =>
+    match c.toNat? with
+    | some c => "ok " ++ toString (dtnTimeNow c)
+    | none => "bad-op"
+  | ["adm.dec", h] =>
+    match bytesOfHex h with
+    | some s => resStr showAdmin (decodeAdmin s)
+    | none => "bad-op"
+  | "adm.enc" :: rest =>
+    match parseAdmin rest with
+    | some r => "ok " ++ hexOfBytes (encAdmin r) ++ " " ++ resStr showAdmin (decodeAdmin (encAdmin r))
+    | none => "bad-op"
+  | "enc" :: rest =>
+    match parseBundle rest with
+    | some (b, []) => let (b', bytes) := b.toCbor; "ok " ++ hexOfBytes bytes ++ " " ++ showBundle b'
+    | _ => "bad-op"
+  | "spec.enc" :: rest =>
+    match parseBundle rest with
+    | some (b, []) => "ok " ++ hexOfBytes (Spec.encode b) ++ " " ++ showBundle (Spec.withCrc b)
+    | _ => "bad-op"
+  | "spec.dec" :: rest =>
+    match parseBundle rest with
+    | some (b, []) =>
+      let bytes := Spec.encode b
+      (match decodeBundle bytes with
+       | .ok d => "ok " ++ showBundle d ++ " crcok=" ++ showBool d.crcValid ++ " reenc="
+                  ++ (if (d.toCbor).2 == bytes then "same" else "diff")
+       | .err _ => "err"
+       | .panic _ => "panic")
+    | _ => "bad-op"
+  | "crcok" :: rest =>
+    match parseBundle rest with
+    | some (b, []) => "ok " ++ showBool b.crcValid
+    | _ => "bad-op"
+  | "validate" :: rest =>
+    match parseBundle rest with
+    | some (b, []) => "ok " ++ String.intercalate "," (b.validate.map showVErr)
+    | _ => "bad-op"
+  | "id" :: rest =>
+    match parseBundle rest with
+    | some (b, []) => "ok " ++ hexOfBytes b.id ++ " " ++ hexOfBytes b.display
+    | _ => "bad-op"
+  | "info" :: rest =>
+    match parseBundle rest with
+    | some (b, []) => "ok payload=" ++ showOptBytes b.payload ++ " prev=" ++ (match b.previousNode with | some e => showEid e | none => "none")
+                      ++ " admin=" ++ showBool b.isAdminRecord
+    | _ => "bad-op"
+  | "upd" :: node :: rt :: now :: rest =>
+    match parseBundle rest, parseEidTok node, rt.toNat?, now.toNat? with
+    | some (b, []), some n, some rt, some now => "ok " ++ showUpd (b.updateExtensions n rt now)
+    | _, _, _, _ => "bad-op"
+  | "adm.report" :: src :: crc :: pos :: reason :: now :: ts :: sq :: rest =>
+    match parseBundle rest, parseEidTok src, crc.toNat?, pos.toNat?, reason.toNat?, now.toNat?, ts.toNat?, sq.toNat? with
+    | some (b, []), some src, some crc, some pos, some reason, some now, some ts, some sq =>
+      resStr showBundle (newStatusReportBundle b src crc pos reason now ts sq)
+    | _, _, _, _, _, _, _, _ => "bad-op"
+  | "seq" :: rest =>
+    match parseBundle rest with
+    | some (b, ops) =>
+      let rec run (b : Bundle) (ops : List (List String)) (out : String) : String :=
+        match ops with
+        | [] => out
+        | o :: os =>
+          match applyOp b o with
+          | some b' => run b' os (out ++ " || " ++ stateLine b')
+          | none => out ++ " || bad-op"
+      "ok " ++ run b (splitOps ops) (stateLine b)
     | none => "bad-op"
   | _ => "bad-op"
 
